@@ -22,6 +22,7 @@ with xd.quiet():
     from xdis.disasm import disassemble_file, get_opcode
     from xdis.load import load_module
     from xdis.op_imports import op_imports
+    import xdis.std as xstd
     from xdis.std import make_std_api
 
 FILES = json.load(open(sys.argv[3]))
@@ -37,8 +38,48 @@ def table_digest(m):
                "pp": [list(m.oppop), list(m.oppush)], "ha": m.HAVE_ARGUMENT, "ext": getattr(m, "EXTENDED_ARG", None), "remapped": getattr(m, "REMAPPED", False)})
 
 
+def stable(x, depth=0):
+    """order-independent text of a module-level value: containers by content, anything else by type and qualified name"""
+    if isinstance(x, (int, float, str, bytes, bool, type(None))):
+        return repr(x)
+    if depth > 3:
+        return "<%s>" % type(x).__name__
+    if isinstance(x, dict):
+        return "{" + ",".join(sorted(stable(k, depth + 1) + ":" + stable(v, depth + 1) for k, v in list(x.items()))) + "}"
+    if isinstance(x, (set, frozenset)):
+        return "s{" + ",".join(sorted(stable(v, depth + 1) for v in x)) + "}"
+    if isinstance(x, (list, tuple)):
+        return "[" + ",".join(stable(v, depth + 1) for v in x) + "]"
+    return "<%s %s>" % (type(x).__name__, getattr(x, "__qualname__", getattr(x, "__name__", "")))
+
+
+BASE_MODULES = sorted(n for n in sys.modules if n == "xdis" or n.startswith("xdis."))
+
+
+def containers_digest():
+    """every module-level container of every xdis module that a fresh process has imported (tables such as COMPILER_FLAG_NAMES,
+    dispatch tables, default-argument-like module state): a call that rewrites one of them in place shows here"""
+    out = {}
+    for n in BASE_MODULES:
+        m = sys.modules.get(n)
+        if m is None:
+            continue
+        for a, v in sorted(vars(m).items()):
+            if a.startswith("__") or not isinstance(v, (dict, list, set)):
+                continue
+            if n == "xdis.op_imports" and a == "op_imports":
+                continue        # digested separately (keys), its values are modules
+            out[n + "." + a] = hashlib.sha1(stable(v).encode("utf-8", "backslashreplace")).hexdigest()[:10]
+    # class-level containers of the unmarshallers and of the std API (dispatch tables, caches)
+    for cls in (xun._VersionIndependentUnmarshaller, xmarsh._FastUnmarshaller, xmarsh._Marshaller, xstd._StdApi):
+        for a, v in sorted(vars(cls).items()):
+            if not a.startswith("__") and isinstance(v, (dict, list, set)):
+                out[cls.__name__ + "." + a] = hashlib.sha1(stable(v).encode("utf-8", "backslashreplace")).hexdigest()[:10]
+    return out
+
+
 def shared_digest():
-    mods = {}
+    mods = {"containers": dg(containers_digest())}
     for k, m in op_imports.items():
         mods[m.__name__] = table_digest(m)
     import xdis.opcodes
@@ -89,8 +130,19 @@ def op_std(vt):
 
 
 def op_std_variant(vt, variant):
+    """the API object of a version/variant, and code of that variant read through it (instructions, code_info with its flag names)"""
     api = make_std_api(vt, variant)
-    return dg([sorted(api.opmap.items()), list(api.opname), api.is_pypy])
+    saved = xload.PYTHON_MAGIC_INT
+    xload.PYTHON_MAGIC_INT = -1
+    try:
+        co = load_module(FILES["f27pypy" if variant == "pypy" else "f27"])[3]
+    finally:
+        xload.PYTHON_MAGIC_INT = saved
+    ins = [(i.offset, i.opname, i.arg) for i in api.Bytecode(co)]
+    buf = io.StringIO()
+    api.show_code(co, file=buf)
+    mask = lambda t: re.sub(r"0x[0-9a-f]+", "0x?", t)
+    return dg([sorted(api.opmap.items()), list(api.opname), api.is_pypy, ins, mask(buf.getvalue()), mask(api.code_info(co))])
 
 
 def op_marsh_body(name):
@@ -129,6 +181,7 @@ OPS = {
     "marsh": op_marsh, "loadcorrupt": op_bad, "importgraal": op_graal,
     "std27": lambda: op_std_variant((2, 7), None), "std27pypy": lambda: op_std_variant((2, 7), "pypy"),
     "marsh27a": lambda: op_marsh_body("f27"), "marsh27b": lambda: op_marsh_body("f27b"),
+    "loaddropbox": lambda: op_load("fdropbox"),
 }
 
 
